@@ -263,8 +263,6 @@ func Pad[T ~string](str T, size int, token string) T {
 // SplitAtIndex split the string at the specified index and
 // returns a slice with the resulted two substrings.
 func SplitAtIndex[T ~string](str T, index int) []T {
-	result := make([]T, 0, 2)
-
 	if index < 0 {
 		return []T{"", str}
 	}
@@ -273,13 +271,7 @@ func SplitAtIndex[T ~string](str T, index int) []T {
 		return []T{str, ""}
 	}
 
-	for idx := range str {
-		if idx == index {
-			result = append(result, append(result, str[:idx+1], str[idx+1:])...)
-		}
-	}
-
-	return result
+	return []T{str[:index+1], str[index+1:]}
 }
 
 // Wrap a string with the specified token.
